@@ -52,7 +52,9 @@ def deserOf (st : St) (mode : String) : Fields → DRes := fun d =>
   match mode with
   | "o" => match lookupF d "o" with
     | some (.num i) => (match st.pool[i.toNat]? with | some a => .atom a | none => .error)
-    | _ => (match lookupF d "str" with | some (.str s) => .atom (strAtomOf st s) | _ => .error)
+    | _ => (match lookupF d "str" with
+      | some (.str s) => .atom (strAtomOf st s)
+      | _ => (match lookupF d "data" with | some (.str s) => .atom (strAtomOf st s) | _ => .error))
   | _ => (match lookupF d "str" with       -- Tree.deserialize_mapper / TypedTree.deserialize_mapper
     | some (.str s) =>
       if mode == "str" then (if d.all (fun e => e.1 == "str" || e.1 == "kind" || e.1 == "data_id") then .atom (strAtomOf st s) else .notImplemented)
